@@ -11,6 +11,7 @@ import (
 	"errors"
 	"fmt"
 	"math/big"
+	"runtime"
 	"runtime/debug"
 	"sort"
 	"strings"
@@ -199,11 +200,15 @@ type BlockerError struct {
 	Stack    string
 	Deadlock bool
 	Overrun  bool
+	Hang     bool // Overrun, and a goroutine is still inside the blocker
 }
 
 func (e *BlockerError) Error() string {
 	if e.Deadlock {
 		return fmt.Sprintf("%s: deadlock (goroutine waits for the MemDB write lock under its own open iterator): %s", e.Where, briefStack(e.Stack))
+	}
+	if e.Hang {
+		return fmt.Sprintf("%s: still running after 21 watchdog periods (more than a minute; normal blocks take milliseconds): it does not terminate [%s]", e.Where, briefStack(e.Stack))
 	}
 	if e.Overrun {
 		return fmt.Sprintf("%s: did not finish within the watchdog budget (inconclusive)", e.Where)
@@ -440,6 +445,14 @@ func (h *Hub) guarded(where string, f func()) (err error) {
 		case <-time.After(20 * h.Watchdog):
 			if st, dead := deadlockSignature(); dead {
 				return &BlockerError{Where: where, Deadlock: true, Stack: st}
+			}
+			// still running after 21 watchdog periods (a minute, against milliseconds normally): is it inside the blocker?
+			buf := make([]byte, 1<<22)
+			all := string(buf[:runtime.Stack(buf, true)])
+			for _, g := range strings.Split(all, "\n\n") {
+				if strings.Contains(g, "x/mhub2.BeginBlocker") || strings.Contains(g, "x/mhub2.EndBlocker") || strings.Contains(g, "x/oracle.EndBlocker") || strings.Contains(g, "keeper.Hooks.") {
+					return &BlockerError{Where: where, Overrun: true, Hang: true, Stack: g}
+				}
 			}
 			return &BlockerError{Where: where, Overrun: true}
 		}
